@@ -9,6 +9,7 @@
 #include <unistd.h>
 #include <sys/syscall.h>
 #include <linux/futex.h>
+#include <sys/wait.h>
 
 enum { ST_RUN, ST_MUTEX, ST_FUTEX, ST_JOIN, ST_POLL, ST_SLEEP };
 
@@ -56,6 +57,7 @@ static pthread_key_t exit_key;
 static unsigned char *choices;
 static size_t nchoices, capchoices;
 static char choices_path[512];
+static char trace_path[480];
 static unsigned long n_faults[4];	/* spur, eintr, enosys, signals */
 
 struct mtx { pthread_mutex_t *m; int owner; };
@@ -778,6 +780,71 @@ void vrt_set_sighandler(void (*fn)(void)) { T[vrt_tid].sigh = fn; }
 void vrt_sig_block(int blocked) { T[vrt_tid].sigblocked = blocked; }
 int vrt_sig_depth(void) { return T[vrt_tid].sigdepth; }
 
+/* ---- fork (C16) ---------------------------------------------------------------------------
+ * Real fork().  The child contains only the calling thread: every other cooperative thread is
+ * marked dead, the mutex table keeps the owners it had (a mutex held by a vanished thread stays
+ * held: that is what the atfork handlers are for).  The child's trace is a new file
+ * "<trace>.child<k>" that starts with a copy of the parent's trace up to the fork, followed by
+ * a "T<tid> FORK_CHILD" line, so that a driver can replay the common prefix and then continue
+ * with the child.  Requires --trace FILE.  Returns like fork(). */
+static int nforks;
+int vrt_fork(void)
+{
+	pid_t pid;
+	int i, me = vrt_tid;
+	char cpath[512];
+	if (!vrt_active || !trace_path[0])
+		return (int)fork();
+	vrt_in_prim++;
+	vrt_point();
+	nforks++;
+	vrt_log("FORK %d", nforks);
+	fflush(trace);
+	pid = fork();
+	if (pid < 0) { vrt_in_prim--; return -1; }
+	if (pid == 0) {
+		FILE *in, *out;
+		int c;
+		snprintf(cpath, sizeof(cpath), "%s.child%d", trace_path, nforks);
+		in = fopen(trace_path, "r");
+		out = fopen(cpath, "w");
+		if (!in || !out) _exit(9);
+		while ((c = fgetc(in)) != EOF) fputc(c, out);
+		fclose(in);
+		trace = out;
+		setvbuf(trace, NULL, _IOFBF, 1 << 16);
+		snprintf(trace_path, sizeof(trace_path), "%s", cpath);
+		snprintf(choices_path, sizeof(choices_path), "%s.choices", cpath);
+		for (i = 0; i < nthreads; i++)
+			if (i != me && T[i].used) {
+				T[i].done = 1;
+				T[i].joined = 1;	/* nothing to join in this process */
+			}
+		/* the forking thread is the child's only thread; if it is not the scenario's main
+		 * thread, main never runs again here: make the forking thread the one that finishes */
+		vrt_log("FORK_CHILD %d", nforks);
+		vrt_in_prim--;
+		return 0;
+	}
+	vrt_log("FORK_PARENT %d", nforks);
+	vrt_in_prim--;
+	return (int)pid;
+}
+
+/* parent: wait for a forked child and fold its verdict into ours (0 ok / 3 oracle / 4 deadlock / 5 budget) */
+int vrt_wait_child(int pid)
+{
+	int st = 0, code;
+	vrt_in_prim++;
+	if (waitpid(pid, &st, 0) < 0) { vrt_in_prim--; return -1; }
+	vrt_in_prim--;
+	code = WIFEXITED(st) ? WEXITSTATUS(st) : 128 + (WIFSIGNALED(st) ? WTERMSIG(st) : 0);
+	vrt_log("CHILD_EXIT %d", code);
+	if (code != 0)
+		vrt_fail("child", "forked child ended with status %d", code);
+	return code;
+}
+
 /* ---- init / finish ----------------------------------------------------------------------- */
 int vrt_init(int argc, char **argv)
 {
@@ -818,6 +885,7 @@ int vrt_init(int argc, char **argv)
 	if (tr) {
 		trace = fopen(tr, "w");
 		if (!trace) { perror(tr); _exit(9); }
+		snprintf(trace_path, sizeof(trace_path), "%s", tr);
 		snprintf(choices_path, sizeof(choices_path), "%s.choices", tr);
 	} else
 		trace = stdout;
